@@ -211,6 +211,11 @@ func (x *Exec) resolveName(name string, pos token.Pos) types.Object {
 	if obj := pkg.Scope().Lookup(name); obj != nil {
 		return obj
 	}
+	// the contract still uses the name a variable had when the lock was written (pure rename)
+	if obj := x.g.renameMap(x.fi)[name]; obj != nil {
+		x.c.notes["contract name "+name+" in "+x.fi.Key+" resolved to the renamed variable "+obj.Name()+" (same declaration position and type as when the lock was written)"] = true
+		return obj
+	}
 	return nil
 }
 
